@@ -4,6 +4,7 @@ import (
 	"crypto/sha256"
 	"encoding/json"
 	"fmt"
+	"os"
 	"path/filepath"
 	"strings"
 	"testing"
@@ -95,7 +96,7 @@ func childDocsTypes(c execCase, r *h.Rec, mode string, extra map[string]string, 
 	if res.BuildErr != "" {
 		r.Class("skipped:child_does_not_build(C01)")
 		r.Add("child_build_failures", 1)
-		if r.Confirm {
+		if r.Confirm || os.Getenv("VERIF_DEBUG") != "" {
 			fmt.Println("child build error:", clip(res.BuildErr, 2000))
 		}
 		return ls, nil, unionsText, nil
